@@ -99,6 +99,13 @@ fn seeds_for(e: Endian) -> Vec<Seed> {
     let new = || synth::SynthMinidump::with_endian(e);
     let sec = || Section::with_endian(e);
 
+    // every seed has a thread, so that PROCESSING it (C03) gets past the thread list to the streams it carries
+    let threaded = |d: synth::SynthMinidump, amd64: bool, tid: u32| -> synth::SynthMinidump {
+        let stack = synth::Memory::with_section(Section::with_endian(e).D64(0x0040_1020).append_repeated(0, 24), 0x7000_0000);
+        let ctx = if amd64 { synth::amd64_context(e, 0x0040_1010, 0x7000_0008) } else { synth::x86_context(e, 0x0040_1010, 0x7000_0008) };
+        d.add_thread(synth::Thread::new(e, tid, &stack, &ctx)).add_memory(stack).add(ctx)
+    };
+
     // ---- handle data, descriptor version 2 with an object-information chain
     {
         let mut d = new().add_system_info(sysinfo(e, PROCESSOR_ARCHITECTURE_AMD64, P::VER_PLATFORM_WIN32_NT));
@@ -111,7 +118,7 @@ fn seeds_for(e: Endian) -> Vec<Seed> {
             .D64(0x44).D32(&tn.file_offset()).D32(&on.file_offset()).D32(1).D32(2).D32(3).D32(4).D32(&oi1.file_offset()).D32(0)
             .D64(0x48).D32(0).D32(0).D32(0).D32(0).D32(0).D32(0).D32(0).D32(0);
         d = d.add_stream(simple(ST::HandleDataStream as u32, hs)).add(tn).add(on).add(oi1).add(oi2);
-        out.push(finish("handles2", e, d));
+        out.push(finish("handles2", e, threaded(d, true, 5)));
     }
     // ---- handle data, descriptor version 1 (through synth)
     {
@@ -123,7 +130,7 @@ fn seeds_for(e: Endian) -> Vec<Seed> {
             .add_handle_descriptor(synth::HandleDescriptor::new(e, 0x14, None, None, 0, 0, 0, 0))
             .add(tn)
             .add(on);
-        out.push(finish("handles1", e, d));
+        out.push(finish("handles1", e, threaded(d, false, 5)));
     }
     // ---- thread info list + thread names + breakpad info
     {
@@ -139,7 +146,7 @@ fn seeds_for(e: Endian) -> Vec<Seed> {
             d = d.add_thread_name(synth::ThreadName::new(e, 10 + t, Some(&n))).add(n);
         }
         d = d.add_thread_name(synth::ThreadName::new(e, 12, None));
-        out.push(finish("threadinfo", e, d));
+        out.push(finish("threadinfo", e, threaded(d, true, 10)));
     }
     // ---- assertion
     {
@@ -152,7 +159,7 @@ fn seeds_for(e: Endian) -> Vec<Seed> {
         }
         a = a.D32(7).D32(1);
         d = d.add_stream(simple(ST::AssertionInfoStream as u32, a));
-        out.push(finish("assertion", e, d));
+        out.push(finish("assertion", e, threaded(d, false, 7)));
     }
     // ---- misc info, versions 1..5
     for v in 1..=5u32 {
@@ -181,7 +188,7 @@ fn seeds_for(e: Endian) -> Vec<Seed> {
             m.misc_5 = Some(synth::MiscInfo5Fields { xstate_data: Default::default(), process_cookie: Some(9) });
         }
         d = d.add_stream(m);
-        out.push(finish(&format!("misc{v}"), e, d));
+        out.push(finish(&format!("misc{v}"), e, threaded(d, true, 5)));
     }
     // ---- one thread + exception + memory list entry for every CPU context kind
     for (nm, arch, os, bytes) in cpu_kinds(e) {
@@ -213,7 +220,7 @@ fn seeds_for(e: Endian) -> Vec<Seed> {
             .add_annotation_object("uns", synth::AnnotationValue::Custom(0x0002, vec![5, 6]));
         let m2 = synth::ModuleCrashpadInfo::new(1, e).add_list_annotation("three");
         d = d.add_crashpad_info(synth::CrashpadInfo::new(e).add_simple_annotation("a", "b").add_simple_annotation("c", "d").add_module(m1).add_module(m2));
-        out.push(finish("crashpad", e, d));
+        out.push(finish("crashpad", e, threaded(d, false, 5)));
     }
     // ---- modules with every CodeView kind + misc record, unloaded modules
     {
@@ -237,7 +244,7 @@ fn seeds_for(e: Endian) -> Vec<Seed> {
             .add_unloaded_module(synth::UnloadedModule::new(e, 0x5000_0000, 0x1000, &um, 1, 2))
             .add_unloaded_module(synth::UnloadedModule::new(e, 0x5000_0800, 0x1000, &um, 3, 4))
             .add(um);
-        out.push(finish("modules", e, d));
+        out.push(finish("modules", e, threaded(d, true, 5)));
     }
     // ---- both memory lists + memory info list
     {
@@ -321,7 +328,7 @@ fn seeds_for(e: Endian) -> Vec<Seed> {
         }
         let ba = synth::DumpString::new("-v x=1", e);
         d = d.add_stream(simple(ST::MozMacosBootargsStream as u32, sec().D32(ST::MozMacosBootargsStream as u32).D64(&ba.file_offset()))).add(ba);
-        out.push(finish(&format!("mac{v}"), e, d));
+        out.push(finish(&format!("mac{v}"), e, threaded(d, true, 5)));
     }
     // ---- system info with a CSD string and non-x86 cpu info; unknown / unimplemented / duplicate / empty streams
     {
@@ -339,7 +346,7 @@ fn seeds_for(e: Endian) -> Vec<Seed> {
         d = d.add_stream(simple(ST::UnusedStream as u32, sec()));
         d = d.add_stream(simple(ST::BreakpadInfoStream as u32, sec().D32(1).D32(1).D32(2)));
         d = d.add_stream(simple(ST::BreakpadInfoStream as u32, sec().D32(3).D32(3).D32(4)));
-        out.push(finish("sysinfo-misc-streams", e, d));
+        out.push(finish("sysinfo-misc-streams", e, threaded(d, false, 5)));
     }
     // ---- a "whole process" dump: two x86 threads sharing the file with modules, names, memory, exception
     {
